@@ -1,17 +1,18 @@
 // dump: correspondence + property oracle for C36 (dump and re-import reproduce the database).
 //
 // Streams:
-//   lit   — byte strings (every byte 0x00–0xff, quotes, backslashes, NUL, \Z, %, _, UTF-8) written
-//           by the row formatter dolt dump uses (sqlfmt.SqlRowAsTupleString → quoteAndEscapeString /
-//           hexEncodeBytes) and identifiers by sqlfmt.QuoteIdentifier, read back by the real
-//           tokenizer; oracle: the token value is the original byte string; correspondence: the
-//           written text and the read value against the Lean model.
-//   lex   — adversarial literal text (unknown escapes, doubled quotes, adjacent literals,
-//           unterminated) through the real tokenizer vs the model's reader.
-//   table — tables over the supported column types with boundary values → the dump text produced by
-//           the code path of `dolt dump` (mvdata.NewSqlEngineReader → sqlexport writers, batched and
-//           not) → loaded statement by statement (commands.StreamScanner) into an EMPTY database →
-//           oracle: SHOW CREATE TABLE and all rows equal.
+//
+//	lit   — byte strings (every byte 0x00–0xff, quotes, backslashes, NUL, \Z, %, _, UTF-8) written
+//	        by the row formatter dolt dump uses (sqlfmt.SqlRowAsTupleString → quoteAndEscapeString /
+//	        hexEncodeBytes) and identifiers by sqlfmt.QuoteIdentifier, read back by the real
+//	        tokenizer; oracle: the token value is the original byte string; correspondence: the
+//	        written text and the read value against the Lean model.
+//	lex   — adversarial literal text (unknown escapes, doubled quotes, adjacent literals,
+//	        unterminated) through the real tokenizer vs the model's reader.
+//	table — tables over the supported column types with boundary values → the dump text produced by
+//	        the code path of `dolt dump` (mvdata.NewSqlEngineReader → sqlexport writers, batched and
+//	        not) → loaded statement by statement (commands.StreamScanner) into an EMPTY database →
+//	        oracle: SHOW CREATE TABLE and all rows equal.
 package main
 
 import (
@@ -23,6 +24,7 @@ import (
 	"os"
 	"path/filepath"
 	"strings"
+	"unicode"
 
 	"github.com/dolthub/go-mysql-server/sql"
 	gmstypes "github.com/dolthub/go-mysql-server/sql/types"
@@ -60,6 +62,15 @@ func init() {
 	c3, _ := schema.NewColumnWithTypeInfo("b", 4, vb, false, "", false, "")
 	c4, _ := schema.NewColumnWithTypeInfo("n", 5, vc, false, "", false, "")
 	litSch, _ = schema.SchemaFromCols(schema.NewColCollection(c0, c1, c2, c3, c4))
+}
+
+func litSch2() schema.Schema {
+	vc, _ := typeinfo.FromSqlType(gmstypes.MustCreateStringWithDefaults(sqltypes.VarChar, 16383))
+	c0, _ := schema.NewColumnWithTypeInfo("k", 1, vc, true, "", false, "")
+	c1, _ := schema.NewColumnWithTypeInfo("v", 2, vc, false, "", false, "")
+	c2, _ := schema.NewColumnWithTypeInfo("z", 3, vc, false, "", false, "")
+	sch, _ := schema.SchemaFromCols(schema.NewColCollection(c0, c1, c2))
+	return sch
 }
 
 var hardBytes = []byte{0, 39, 34, 8, 10, 13, 9, 26, 92, '%', '_', '0', 'Z', 'n', 'b', 'r', 't', 0xff, 0xc3, 0xa9, 0x80, ' ', ',', ')', '(', ';', '`', 'x', 'X', '-'}
@@ -544,6 +555,32 @@ func runRaw(e *hx.Env, m *hx.Model, raw json.RawMessage) {
 		if json.Unmarshal(raw, &t) == nil {
 			runTable(e, t)
 		}
+	case "csv":
+		var c csvCase
+		if json.Unmarshal(raw, &c) == nil {
+			runCsv(e, m, c)
+		}
+	case "csvfield":
+		var k litCase
+		if json.Unmarshal(raw, &k) == nil {
+			if k.S == "N" {
+				// unicode.IsSpace (Go's table) vs the model's isSpace over the BMP prefix that contains every White_Space rune
+				for rn := 0; rn < 0x3100; rn++ {
+					want := "0"
+					if unicode.IsSpace(rune(rn)) {
+						want = "1"
+					}
+					if got := m.Ask(fmt.Sprintf("isspace %d", rn)); got != want {
+						e.Rep.Disagree(map[string]int{"rune": rn}, want, got, "unicode.IsSpace vs model isSpace")
+					}
+				}
+				e.Rep.Count("isspace-table", true)
+				runCsvField(e, m, nil)
+			} else if strings.HasPrefix(k.S, "S") {
+				v := string(hx.Unhex(k.S[1:]))
+				runCsvField(e, m, &v)
+			}
+		}
 	}
 }
 
@@ -570,6 +607,25 @@ func main() {
 	}
 	for i, n := 0, e.N(4000, 150000); i < n; i++ {
 		runLex(e, m, litCase{"lex", hx.Hex(genLexText(r))})
+	}
+	// unicode.IsSpace (Go's table) vs the model's isSpace over the BMP prefix that contains every White_Space rune
+	for rn := 0; rn < 0x3100; rn++ {
+		want := "0"
+		if unicode.IsSpace(rune(rn)) {
+			want = "1"
+		}
+		if got := m.Ask(fmt.Sprintf("isspace %d", rn)); got != want {
+			e.Rep.Disagree(map[string]int{"rune": rn}, want, got, "unicode.IsSpace vs model isSpace")
+		}
+	}
+	e.Rep.Count("isspace-table", true)
+	runCsvField(e, m, nil)
+	for i, n := 0, e.N(1500, 60000); i < n; i++ {
+		v := genCsvString(r)
+		runCsvField(e, m, &v)
+	}
+	for i, n := 0, e.N(6, 80); i < n; i++ {
+		runCsv(e, m, genCsv(r, i))
 	}
 	for i, n := 0, e.N(12, 120); i < n; i++ {
 		tc := genTable(r, i)
